@@ -1,7 +1,9 @@
 package props
 
 import (
+	"image"
 	"image/color"
+	"image/draw"
 
 	"github.com/mandykoh/prism/adobergb"
 	"github.com/mandykoh/prism/ciexyy"
@@ -37,6 +39,8 @@ type Space struct {
 	FromXYZ          func(ciexyz.Color) linear.RGB
 	Linearise        func(color.Color) color.RGBA64
 	Encode           func(color.Color) color.RGBA64
+	LineariseImage   func(dst draw.Image, src image.Image, parallelism int)
+	EncodeImage      func(dst draw.Image, src image.Image, parallelism int)
 
 	PrimR, PrimG, PrimB, White func() ciexyy.Color
 }
@@ -54,7 +58,7 @@ var Spaces = []Space{
 		ToRGBA64:         func(c linear.RGB, a float32) color.RGBA64 { return srgb.Color{RGB: c}.ToRGBA64(a) },
 		ToXYZ:            func(c linear.RGB) ciexyz.Color { return srgb.Color{RGB: c}.ToXYZ() },
 		FromXYZ:          func(c ciexyz.Color) linear.RGB { return srgb.ColorFromXYZ(c).RGB },
-		Linearise:        srgb.LineariseColor, Encode: srgb.EncodeColor,
+		Linearise:        srgb.LineariseColor, Encode: srgb.EncodeColor, LineariseImage: srgb.LineariseImage, EncodeImage: srgb.EncodeImage,
 		PrimR: func() ciexyy.Color { return srgb.PrimaryRed }, PrimG: func() ciexyy.Color { return srgb.PrimaryGreen },
 		PrimB: func() ciexyy.Color { return srgb.PrimaryBlue }, White: func() ciexyy.Color { return srgb.StandardWhitePoint },
 	},
@@ -70,7 +74,7 @@ var Spaces = []Space{
 		ToRGBA64:         func(c linear.RGB, a float32) color.RGBA64 { return adobergb.Color{RGB: c}.ToRGBA64(a) },
 		ToXYZ:            func(c linear.RGB) ciexyz.Color { return adobergb.Color{RGB: c}.ToXYZ() },
 		FromXYZ:          func(c ciexyz.Color) linear.RGB { return adobergb.ColorFromXYZ(c).RGB },
-		Linearise:        adobergb.LineariseColor, Encode: adobergb.EncodeColor,
+		Linearise:        adobergb.LineariseColor, Encode: adobergb.EncodeColor, LineariseImage: adobergb.LineariseImage, EncodeImage: adobergb.EncodeImage,
 		PrimR: func() ciexyy.Color { return adobergb.PrimaryRed }, PrimG: func() ciexyy.Color { return adobergb.PrimaryGreen },
 		PrimB: func() ciexyy.Color { return adobergb.PrimaryBlue }, White: func() ciexyy.Color { return adobergb.StandardWhitePoint },
 	},
@@ -92,7 +96,7 @@ var Spaces = []Space{
 		ToRGBA64:  func(c linear.RGB, a float32) color.RGBA64 { return prophotorgb.Color{RGB: c}.ToRGBA64(a) },
 		ToXYZ:     func(c linear.RGB) ciexyz.Color { return prophotorgb.Color{RGB: c}.ToXYZ() },
 		FromXYZ:   func(c ciexyz.Color) linear.RGB { return prophotorgb.ColorFromXYZ(c).RGB },
-		Linearise: prophotorgb.LineariseColor, Encode: prophotorgb.EncodeColor,
+		Linearise: prophotorgb.LineariseColor, Encode: prophotorgb.EncodeColor, LineariseImage: prophotorgb.LineariseImage, EncodeImage: prophotorgb.EncodeImage,
 		PrimR: func() ciexyy.Color { return prophotorgb.PrimaryRed }, PrimG: func() ciexyy.Color { return prophotorgb.PrimaryGreen },
 		PrimB: func() ciexyy.Color { return prophotorgb.PrimaryBlue }, White: func() ciexyy.Color { return prophotorgb.StandardWhitePoint },
 	},
@@ -107,7 +111,7 @@ var Spaces = []Space{
 		ToRGBA64:         func(c linear.RGB, a float32) color.RGBA64 { return displayp3.Color{RGB: c}.ToRGBA64(a) },
 		ToXYZ:            func(c linear.RGB) ciexyz.Color { return displayp3.Color{RGB: c}.ToXYZ() },
 		FromXYZ:          func(c ciexyz.Color) linear.RGB { return displayp3.ColorFromXYZ(c).RGB },
-		Linearise:        displayp3.LineariseColor, Encode: displayp3.EncodeColor,
+		Linearise:        displayp3.LineariseColor, Encode: displayp3.EncodeColor, LineariseImage: displayp3.LineariseImage, EncodeImage: displayp3.EncodeImage,
 		PrimR: func() ciexyy.Color { return displayp3.PrimaryRed }, PrimG: func() ciexyy.Color { return displayp3.PrimaryGreen },
 		PrimB: func() ciexyy.Color { return displayp3.PrimaryBlue }, White: func() ciexyy.Color { return displayp3.StandardWhitePoint },
 	},
